@@ -35,6 +35,7 @@ constexpr double tail_eps2()
   if constexpr (N == 4) { return is_single ? 0.74 : 1.3e-2; }
   if constexpr (N == 5) { return is_single ? 1.2 : 2.1e-2; }
   if constexpr (N == 6) { return is_single ? 1.7 : 6e-2; }
+  if constexpr (N == 7) { return is_single ? 2.7 : 9e-2; }
 }
 
 template<typename S>
@@ -103,6 +104,20 @@ S cos_6(const S & x2)
   }
 }
 
+template<typename S>
+S sin_7(const S & x2)
+{
+  using std::sin, std::sqrt;
+
+  const S x4 = x2 * x2;
+  if (x2 > S(tail_eps2<S, 7>())) {
+    const S x = sqrt(x2);
+    return (sin(x) - x + x2 * x / S(6) - x4 * x / S(120)) / (x4 * x2 * x);
+  } else {
+    return -S(1) / S(5040) + x2 / S(362880) - x4 / S(39916800);
+  }
+}
+
 /**
  * @brief Coefficient of ad^2 in the inverse of the exponential Jacobians,
  * \f$ 1 / x^2 - (1 + \cos x) / (2 x \sin x) = 1 / x^2 - \cot(x / 2) / (2 x) \f$.
@@ -120,6 +135,23 @@ S dexpinv_coef(const S & x2)
     return S(1) / x2 - cos(x / S(2)) / (S(2) * x * sin(x / S(2)));
   } else {
     return S(1) / S(12) + x2 * (S(1) / S(720) + x2 * (S(1) / S(30240) + x2 * (S(1) / S(1209600) + x2 / S(47900160))));
+  }
+}
+
+/**
+ * @brief Derivative of dexpinv_coef w.r.t. x, divided by x.
+ */
+template<typename S>
+S dexpinv_coef_dx_over_x(const S & x2)
+{
+  using std::cos, std::sin, std::sqrt;
+
+  if (x2 > S(std::is_same_v<S, float> ? 1.7 : 6e-2)) {
+    const S x = sqrt(x2);
+    const S s = sin(x / S(2)), c = cos(x / S(2));
+    return -S(2) / (x2 * x2) + c / (S(2) * x2 * x * s) + S(1) / (S(4) * x2 * s * s);
+  } else {
+    return S(1) / S(360) + x2 * (S(1) / S(7560) + x2 * (S(1) / S(201600) + x2 * (S(1) / S(5987520) + x2 / S(189243758))));
   }
 }
 
